@@ -114,9 +114,9 @@ impl Scenario for Depth {
         let slice = SourceSpec::slice();
         let exact = r.res.is_ok() && r.taken == bytes.len();
         for l in 0..=d_hi + 2 {
-            // (1) wrapper as outermost layer over the drawn source
+            // (1) wrapper as outermost layer (layer lists are innermost-first) over the drawn source
             let mut ls = src.clone();
-            ls.layers.insert(0, Layer::Depth(l));
+            ls.layers.push(Layer::Depth(l));
             let a = (s.decode)(&bytes, &ls, Mode::Decode);
             // (2) direct entry point on the slice
             let b = (s.decode)(&bytes, &slice, Mode::DepthDirect(l));
